@@ -140,6 +140,14 @@ pub fn run(report: &Report, _thorough: bool) -> Evidence {
                             if !shape_ok {
                                 bad("wrong-shape", format!("unexpected suggestion shape {}", r.to_json()));
                             }
+                            // "change nothing": a key without an assignment leaves the whole method state as it was
+                            // (the raw key record is read by later candidate lists)
+                            if exp_val.is_none() {
+                                let st = crate::fxgraph::read_state(ctx);
+                                if st.buf != prefix || !st.typed.is_empty() || st.pending != 0 {
+                                    bad("unassigned-key-changed-state", format!("state after the key: buffer {:?}, raw keys {:?}, waiting sign {} (before: buffer {:?}, no raw keys)", st.buf, st.typed, st.pending, prefix));
+                                }
+                            }
                             if ctx.ongoing() != !exp_text.is_empty() {
                                 bad("wrong-session-flag", format!("ongoing={} for composition {:?}", ctx.ongoing(), exp_text));
                             }
